@@ -1181,6 +1181,34 @@ func runC06(c *an.Ctx) {
 					fN = nil
 				}
 			}
+			isCarried := func(v ssa.Value) bool {
+				if fN == nil {
+					return true
+				}
+				f, _ := an.FieldOf(c06LoadAddr(v))
+				return f == fN
+			}
+			var buffered func(v ssa.Value, d int) bool
+			buffered = func(v ssa.Value, d int) bool {
+				if v == nil || d > 3 {
+					return false
+				}
+				if hb, ok := v.(*ssa.BinOp); ok && hb.Op == token.ADD {
+					return (readCount(hb.X, 0) && isCarried(hb.Y)) || (readCount(hb.Y, 0) && isCarried(hb.X))
+				}
+				if i := paramIdx(v); i >= 0 {
+					ks := sitesOf(v.(*ssa.Parameter).Parent())
+					for _, k := range ks {
+						if k.Common().IsInvoke() || i >= len(k.Common().Args) || !buffered(k.Common().Args[i], d+1) {
+							return false
+						}
+					}
+					return len(ks) > 0
+				}
+				return false
+			}
+			var bufField *types.Var // the buffer field bytes are carried in
+			var carryCopies []*ssa.Call
 			for _, home := range methods {
 				for _, call := range an.Calls(home, an.M("builtin", "", "copy")) {
 					cv, ok := call.(*ssa.Call)
@@ -1197,36 +1225,12 @@ func runC06(c *an.Ctx) {
 						continue
 					}
 					nCarry++
+					bufField = dstF
+					carryCopies = append(carryCopies, cv)
 					c.Check(chunkEndsAt(home, cv, src.Low, 0), "O5", "R-FLOW", an.FuncName(home), "carry-over-starts-at-chunk-end", cv.Pos(),
 						"bytes kept for the next call start at the index where the returned chunk ends",
 						"the carry-over copy starts at "+an.PathOf(src.Low)+" which is not the length of the freshly allocated chunk that is returned: bytes are lost or duplicated between consecutive chunks")
 					// high bound = bytes buffered = previous carry + bytes read
-					isCarried := func(v ssa.Value) bool {
-						if fN == nil {
-							return true
-						}
-						f, _ := an.FieldOf(c06LoadAddr(v))
-						return f == fN
-					}
-					var buffered func(v ssa.Value, d int) bool
-					buffered = func(v ssa.Value, d int) bool {
-						if v == nil || d > 3 {
-							return false
-						}
-						if hb, ok := v.(*ssa.BinOp); ok && hb.Op == token.ADD {
-							return (readCount(hb.X, 0) && isCarried(hb.Y)) || (readCount(hb.Y, 0) && isCarried(hb.X))
-						}
-						if i := paramIdx(v); i >= 0 {
-							ks := sitesOf(v.(*ssa.Parameter).Parent())
-							for _, k := range ks {
-								if k.Common().IsInvoke() || i >= len(k.Common().Args) || !buffered(k.Common().Args[i], d+1) {
-									return false
-								}
-							}
-							return len(ks) > 0
-						}
-						return false
-					}
 					okHigh := buffered(src.High, 0)
 					c.Check(okHigh, "O5", "R-FLOW", an.FuncName(home), "carry-over-ends-at-buffered", cv.Pos(),
 						"carry-over ends at carried+read bytes", "the carry-over copy does not end at (carried + bytes read): trailing bytes are dropped or stale bytes re-emitted")
@@ -1242,6 +1246,7 @@ func runC06(c *an.Ctx) {
 					}
 				}
 			}
+			c06ChunkContent(c, methods, bufField, carryCopies, buffered)
 		}
 		if delegates {
 			c.Note("O3: %s delegates reading to %s (external library; it reads through io.ReadFull as of the pinned version) — not analysed", T.Obj().Name(), c06RabinLib)
@@ -1437,4 +1442,74 @@ func c06RejoinsOnMin(fn *ssa.Function, rd ssa.CallInstruction, ret *ssa.Return, 
 		return false
 	}
 	return !an.Reaches(fn, rd, ret, nilEdges.Union(guards).Union(enough), nil)
+}
+
+// c06ChunkContent (round 11): a splitter that carries bytes between calls hands out fresh slices; each of them is
+// filled by a copy that starts at the beginning of the buffer, and a chunk that is not followed by a carry-over copy
+// (the final one) has the length of everything buffered (carried + read).
+func c06ChunkContent(c *an.Ctx, methods []*ssa.Function, bufField *types.Var, carryCopies []*ssa.Call, buffered func(ssa.Value, int) bool) {
+	if bufField == nil {
+		return
+	}
+	n := 0
+	for _, fn := range methods {
+		an.Instrs(fn, func(in ssa.Instruction) {
+			ms, ok := in.(*ssa.MakeSlice)
+			if !ok {
+				return
+			}
+			var rets []*ssa.Return
+			for _, ret := range an.Returns(fn) {
+				for _, r := range ret.Results {
+					if r == ssa.Value(ms) {
+						rets = append(rets, ret)
+					}
+				}
+			}
+			if len(rets) == 0 {
+				return
+			}
+			n++
+			filled := false
+			for _, call := range an.Calls(fn, an.M("builtin", "", "copy")) {
+				cv, ok := call.(*ssa.Call)
+				if !ok || cv.Call.Args[0] != ssa.Value(ms) || !an.Dominates(ms, cv) {
+					continue
+				}
+				src := cv.Call.Args[1]
+				if sl, ok := src.(*ssa.Slice); ok {
+					if sl.Low != nil {
+						if k, isK := an.XBInt64(sl.Low); !isK || k != 0 {
+							continue
+						}
+					}
+					src = sl.X
+				}
+				if f, _ := an.FieldOf(c06LoadAddr(src)); f == bufField {
+					filled = true
+				}
+			}
+			c.Check(filled, "O5", "R-FLOW", an.FuncName(fn), "chunk=copy-of-buffer-prefix", ms.Pos(),
+				"the chunk handed out is filled from the beginning of the buffer", "the freshly allocated chunk is not filled by a copy that starts at the beginning of the buffer: the chunk does not hold the bytes the carry-over bookkeeping assumes were emitted")
+			carried := false
+			for _, cv := range carryCopies {
+				if cv.Parent() == fn && an.Dominates(ms, cv) {
+					carried = true
+				}
+				// the carry-over copy may live in a helper called after the chunk was allocated
+				for _, call := range an.AllCalls(fn) {
+					if t := an.Callee(call).Static; t != nil && t == cv.Parent() && t != fn && an.Dominates(ms, call) {
+						carried = true
+					}
+				}
+			}
+			if !carried {
+				if _, isPar := ms.Len.(*ssa.Parameter); !isPar {
+					c.Check(buffered(ms.Len, 0), "O5", "R-FLOW", an.FuncName(fn), "final-chunk-length=buffered", ms.Pos(),
+						"a chunk after which nothing is carried over holds everything buffered (carried + read)", "a chunk is handed out without a carry-over copy but its length is not (carried + bytes read): buffered bytes are dropped at the end of the input")
+				}
+			}
+		})
+	}
+	c.Min("O5 chunks handed out by the carrying splitter", n, 1)
 }
